@@ -1,32 +1,50 @@
 """C02 - a written ITP states exactly the molecule held in memory.
 
-spec/ItpWrite.tla        Write (operational, shaped like write_molecule_itp), Canon (declarative), ReadMol (reader
-                         semantics), Judge (total verdict); TAB model over four input families              (TAB)
-spec/Trace_ItpWrite.tla  TLC judges recorded (molecule in memory, records read from the written text) pairs   (TRACE)
+spec/ItpText.tla         abstract records of the text, reader semantics of the FORMAT (ReadStep / ReadMol), prologue of
+                         guarded #defines
+spec/ItpWrite.tla        Write (operational, shaped like write_molecule_itp), Canon (declarative), Judge / JudgeFile (total
+                         verdict), Repeatable; TAB model over the input families                                     (TAB)
+spec/ItpAgree.tla        the second consumer of the format, the repository's own reader read_itp: both readings of one
+                         text as ONE abstract description, Agree, the named exclusions, BlockOf (operational model)
+spec/Trace_ItpWrite.tla  TLC judges recorded (molecule in memory, both readings of the written text) events      (TRACE)
 harness/indep_readers.py independent ITP reader (text -> abstract records), shares no code with vermouth
+harness/c02_real.py      generic projection of live Molecules, the two readings, the interposed pipeline runs
 
 spec -> code: every molecule of the TAB domain is built as a real vermouth Molecule, written with the real
-write_molecule_itp, the text parsed by the independent reader.  If the records equal TLC's Write(mol) the verdict
-is the one TLC computed for them (Judge(mol, Write(mol))); if they differ, the real records go to the TRACE judge
-and TLC decides on ReadMol(real records) = Canon(mol); a difference that still round-trips is only counted
+write_molecule_itp, the text parsed by the independent reader AND by vermouth's read_itp.  If the records equal TLC's
+Write(mol) the verdict is the one TLC computed for them (Judge(mol, Write(mol))), and the projected Block must equal
+TLC's ReaderBlock(Write(mol)); whatever differs goes to the TRACE judge and TLC decides on ReadMol(real records) =
+Canon(mol) and on Agree(independent reading, Block); a difference that still passes is only counted
 (`write_model_deviations`: the text is right, the model of the algorithm is not the code's any more).
-code -> spec: (a) molecules left behind by random editing histories on real Molecule objects (merge_molecule,
-remove_node, add_node: sparse keys, stale / duplicated / missing atom ids, interactions renumbered by the merge),
-(b) the molecules the real martinize2 pipeline hands to its topology writer (plus the same molecules after
-deleting atoms and shuffling atom ids); each is written, read back, and judged by TLC as a one-event trace.
+code -> spec, every event judged by TLC on three counts (write / agree / pure):
+ (a) HISTORY family: molecules left behind by random editing histories on real Molecule objects (merge_molecule of
+     parts with guarded interactions, remove_node of atoms with interactions, add_node, add_interaction; sparse keys,
+     stale / duplicated / gapped / partial atom ids), written after EVERY step of some histories; histories on
+     molecules whose node keys are strings, tuples or a mix (no merge: merge_molecule is defined for integer keys);
+ (b) REAL MOLECULES family: the real martinize2 entry() in-process on the tier-0 structures with martini3001,
+     martini22, martini22p, elnedyn22(p), -elastic, -p backbone, -go with a contact file, -scfix / -noscfix ...;
+     vermouth.gmx.itp.write_molecule_itp is interposed, the LIVE molecule of every call is projected just before the
+     real writer runs and the text the real writer produces for that call (header, moltype of the call) is judged;
+     the file left on disk must be that text; plus the same molecules after deleting atoms / shuffling atom ids.
+ (c) every event also carries the projection of the molecule AFTER writing and the records of a second write
+     (Repeatable).
 
-Family `d11` (atoms with a mass and without a charge, the only inputs on which D11 can show) is generated
-separately; everything else never contains such an atom."""
+Family `d11` (atoms with a mass and without a charge, the only inputs on which D11 can show) is generated separately;
+everything else never contains such an atom.  Family `vs1` ([ virtual_sites1 ]: read_itp took ONE atom column where
+the GROMACS manual has two - found by the agreement judge, fixed in /repo 3ef2780, D26) keeps that section covered."""
+import ast
 import hashlib
-import io
 import itertools
 import json
 import multiprocessing as mp
 import random
 import re
+import shutil
 
 from . import common, tlc, tlaval
 from . import indep_readers
+from . import c02_real as R
+from .c02_real import project, in_scope, event_of          # noqa: F401 (re-exported: replay files / other tools)
 
 PID = 'C02'
 T = tlaval.to_tla
@@ -37,9 +55,12 @@ SIGNATURES = {
     'D11': lambda kind, sc: (kind == 'roundtrip' and sc.get('why') == 'mass-in-charge-column'
                              and any(n['f'][5] == '' and n['f'][6] != '' for n in sc['mol']['nodes'])),
 }
+# findings of this driver that wait for the lead's decision (id -> text): while known_findings.json has no entry (known or
+# fixed) with the id, a scenario matching SIGNATURES[id] is printed as a NOTE and counted in the evidence, not as a violation
+PENDING = {}
 
 CFG = ("SPECIFICATION Spec\nINVARIANT RoundTrip\nINVARIANT OnlyD11\nINVARIANT VerdictIsRound\nINVARIANT Numbered\n"
-       "INVARIANT NothingLost\nINVARIANT GuardsBalanced\n")
+       "INVARIANT NothingLost\nINVARIANT GuardsBalanced\nINVARIANT ReaderModelAgrees\nINVARIANT ReaderStatesMolecule\n")
 
 # key -> <<atype, resid, resname, atomname, charge_group, charge, mass>>: distinct per key (a field landing on another
 # atom is visible), different widths (column alignment), str(float(token)) == token
@@ -104,12 +125,29 @@ def families(tier):
     # D11 family, kept apart: atoms with a mass and without a charge
     fam['d11'] = dict(KeySeqs=[(9,), (5, 2)], AidVals=[NOAID, 1], CMPats=[(CM['-m'],), (CM['cm'], CM['-m'])],
                       Pool=[tmpl('bonds', (2, 1), ('1', '0.47', '3800'))], MaxInter=1)
+    # the one-atom virtual site (GROMACS: site, constructing atom, function type); read_itp once took one atom column (D26)
+    fam['vs1'] = dict(KeySeqs=[(5, 2), (9, 2, 11)], AidVals=[NOAID, 1], CMPats=[(CM['cm'],)],
+                      Pool=[tmpl('virtual_sites1', (2, 1), ('1',)), tmpl('bonds', (1, 2), ('1', '0.47', '3800'))], MaxInter=2)
     return fam
 
 
+def token_tables():
+    """token -> number tables of the TAB model, made from ATOMTAB by the same exact conversion the harness applies to a
+    real text (integers; decimals in units of 10^-6)."""
+    ints, decs = {}, {}
+    for f in ATOMTAB.values():
+        for t in (f[1], f[4]):
+            ints[t] = R._int_tok(t)
+        for t in (f[5], f[6]):
+            decs[t] = R._dec(t)['v']
+    return ints, decs
+
+
 def consts_of(f):
+    ints, decs = token_tables()
     return {'KeySeqs': tla_set(f['KeySeqs']), 'AidVals': tla_set(f['AidVals']), 'AtomTab': atomtab_tla(),
-            'CMPats': tla_set(f['CMPats']), 'Pool': tla_set(f['Pool']), 'MaxInter': str(f['MaxInter'])}
+            'CMPats': tla_set(f['CMPats']), 'Pool': tla_set(f['Pool']), 'MaxInter': str(f['MaxInter']),
+            'TokInt': T(ints), 'TokDec': T(decs)}
 
 
 # ----------------------------------------------------------------------------------------------------------------
@@ -135,11 +173,18 @@ def _typed(token, conv):
     return v if str(v) == token else token
 
 
+def real_key(k):
+    """abstract key -> node key (inverse of c02_real.key_encoder)"""
+    return ast.literal_eval(k[2:]) if isinstance(k, str) and k.startswith('k:') else k
+
+
 def build_molecule(m):
     """Real vermouth Molecule for an abstract molecule (nodes inserted in the given order, interactions added
     through Molecule.add_interaction in the given order)."""
     from vermouth.molecule import Molecule
-    mol = Molecule(nrexcl=1)
+    mol = Molecule(nrexcl=_typed(m.get('nrexcl', '1'), int))
+    if m.get('defs'):
+        mol.meta['define'] = {d['name']: ' '.join(d['val']) for d in m['defs']}
     for nd in m['nodes']:
         f = nd['f']
         attrs = {'atype': f[0], 'resid': _typed(f[1], int), 'resname': f[2], 'atomname': f[3],
@@ -150,7 +195,7 @@ def build_molecule(m):
             attrs['mass'] = _typed(f[6], float)
         if nd['aid'] != NOAID:
             attrs['atomid'] = nd['aid']
-        mol.add_node(nd['key'], **attrs)
+        mol.add_node(real_key(nd['key']), **attrs)
     for x in m['inter']:
         meta = {}
         if x['g']:
@@ -160,68 +205,12 @@ def build_molecule(m):
         if x['com'] != '':
             meta['comment'] = x['com']
             meta['version'] = 1
-        mol.add_interaction(x['type'], tuple(x['at']), list(x['p']), meta)
+        mol.add_interaction(x['type'], tuple(real_key(k) for k in x['at']), list(x['p']), meta)
     return mol
 
 
-def project(mol):
-    """Abstract molecule of a real Molecule: nodes in graph order, interactions in dictionary / list order.
-    Field values become the tokens str(value) ("numeric formatting is compared as text")."""
-    nodes = []
-    for key in mol.nodes:
-        a = mol.nodes[key]
-        aid = a.get('atomid')
-        nodes.append({'key': int(key), 'aid': NOAID if aid is None else int(aid),
-                      'f': [str(a['atype']), str(a['resid']), str(a['resname']), str(a['atomname']),
-                            str(a['charge_group']), str(a['charge']) if 'charge' in a else '',
-                            str(a['mass']) if 'mass' in a else '']})
-    inter = []
-    for type_, lst in mol.interactions.items():
-        for it in lst:
-            g = []
-            if it.meta.get('ifdef') is not None:
-                g = [{'kind': 'ifdef', 'name': str(it.meta['ifdef'])}]
-            elif it.meta.get('ifndef') is not None:
-                g = [{'kind': 'ifndef', 'name': str(it.meta['ifndef'])}]
-            inter.append({'type': type_, 'at': [int(k) for k in it.atoms], 'p': [str(p) for p in it.parameters],
-                          'g': g, 'grp': str(it.meta.get('group') or ''), 'com': str(it.meta.get('comment', ''))})
-    return {'nodes': nodes, 'inter': inter}
-
-
-def in_scope(m):
-    """The statement's domain: tokens the format can carry (no blanks / ';' / empty), n-body virtual sites with exactly
-    their function type, exclusions without parameters, no aid equal to the NOAID sentinel, mass only with charge."""
-    tok = re.compile(r'^[^\s;]+$')
-    for nd in m['nodes']:
-        if not all(tok.match(t) for t in nd['f'][:5]) or any(t != '' and not tok.match(t) for t in nd['f'][5:]):
-            return False
-        if nd['f'][5] == '' and nd['f'][6] != '':
-            return False
-        if nd['aid'] < 0 and nd['aid'] != NOAID:
-            return False
-    for x in m['inter']:
-        if not all(tok.match(t) for t in x['p']):
-            return False
-        if x['type'] == 'virtual_sitesn' and len(x['p']) != 1:
-            return False
-        if x['type'] == 'exclusions' and x['p']:
-            return False
-        if '\n' in x['com'] or '\n' in x['grp']:
-            return False
-    return True
-
-
-def write_text(mol, moltype='verif'):
-    from vermouth.gmx.itp import write_molecule_itp
-    buf = io.StringIO()
-    write_molecule_itp(mol, buf, moltype=moltype)
-    return buf.getvalue()
-
-
-def write_and_read(mol, moltype='verif'):
-    """(text written by the REAL writer, parsed ITP of the independent reader)"""
-    text = write_text(mol, moltype)
-    return text, indep_readers.read_itp(text)
+def moltype_of(m):
+    return m.get('moltype') or 'verif'
 
 
 # ----------------------------------------------------------------------------------------------------------------
@@ -283,33 +272,42 @@ def _replay_range(job):
     with open(path, 'rb') as fh:
         fh.seek(lo)
         text = fh.read(hi - lo).decode()
-    out = {'n': 0, 'bad': [], 'deviant': [], 'nontrivial': set(), 'sample': None, 'verdicts': {}}
+    out = {'n': 0, 'bad': [], 'deviant': [], 'nontrivial': set(), 'sample': None, 'verdicts': {}, 'rd_equal': 0}
     for body in re.split(r'^State \d+:.*$', text, flags=re.M):
         if 'done |-> TRUE' not in body:
             continue
         st = tlaval.parse_state_body(body)
         m = norm(st['mol'])
+        m.update(moltype='verif', nrexcl='1', defs=[])
         exp_recs = norm(st['out']['recs'])
+        exp_rd = norm(st['out']['rd'])
         verdict = st['out']['verdict']
-        try:
-            text_real, parsed = write_and_read(build_molecule(m))
-            recs = parsed['records']
-        except Exception as exc:     # the real writer must not fail on a well-formed molecule
-            out['bad'].append({'family': family, 'mol': m, 'why': 'writer-raised', 'detail': repr(exc)})
-            out['n'] += 1
-            continue
+        e = event_of(build_molecule(m), {'source': 'TAB', 'family': family})
         out['n'] += 1
+        if e['err']:                 # the real writer must not fail on a well-formed molecule
+            out['bad'].append({'family': family, 'mol': m, 'why': 'writer-raised', 'detail': e['err']})
+            continue
+        if e['mol'] != m:
+            out['bad'].append({'family': family, 'mol': m, 'why': 'harness-error-projection-of-the-built-molecule-differs',
+                               'detail': json.dumps(e['mol'])[:300]})
+            continue
         out['verdicts'][verdict] = out['verdicts'].get(verdict, 0) + 1
-        if recs == exp_recs:
+        same_recs = e['file']['recs'] == exp_recs
+        same_rd = e['rd'] == exp_rd
+        pure = e['again']['mol'] == e['mol'] and e['again']['recs'] == e['file']['recs']
+        out['rd_equal'] += same_rd
+        if same_recs and same_rd and pure:
             if verdict != 'ok':
-                out['bad'].append({'family': family, 'mol': m, 'why': verdict, 'text': text_real})
+                out['bad'].append({'family': family, 'mol': m, 'why': verdict, 'text': e['text']})
         else:
-            out['deviant'].append({'family': family, 'mol': m, 'recs': recs, 'text': text_real, 'model_recs': exp_recs})
+            e['family'] = family
+            e['model'] = {'recs': exp_recs if not same_recs else 'same', 'rd': exp_rd if not same_rd else 'same'}
+            out['deviant'].append(e)
         if nontrivial(m):
             out['nontrivial'].add(_hash(m))
         if out['sample'] is None and len(m['inter']) >= 2 and nontrivial(m):
             out['sample'] = {'kind': 'TAB state replayed (family %s)' % family, 'mol': m, 'tlc_records': exp_recs,
-                             'tlc_verdict': verdict, 'real_text': text_real}
+                             'tlc_verdict': verdict, 'tlc_reader_block': exp_rd, 'real_text': e['text']}
     return out
 
 
@@ -317,8 +315,17 @@ def size_of(m):
     return (len(m['nodes']), len(m['inter']), json.dumps(m, sort_keys=True))
 
 
-def run_family(name, fam, ev, vd, pool, deviants):
-    res = tlc.run('ItpWrite', CFG, consts=consts_of(fam), dump=True, timeout=2400)
+def _tlc_family(args):
+    """TLC on one TAB family (may run in a pool worker: the scratch directory belongs to the parent)."""
+    fam, workdir, workers = args
+    res = tlc.run('ItpWrite', CFG, consts=consts_of(fam), dump=True, timeout=2400, workdir=workdir, workers=workers)
+    res.stdout = ''
+    return res
+
+
+def run_family(name, fam, ev, vd, pool, deviants, res=None):
+    if res is None:
+        res = _tlc_family((fam, tlc.scratch('c02tab_'), None))
     if res.violated:
         raise tlc.MachineryError('ItpWrite (family %s) violates %s' % (name, res.violated))
     if res.distinct < 4 or res.distinct % 2:
@@ -332,6 +339,9 @@ def run_family(name, fam, ev, vd, pool, deviants):
     ev.traces += n
     ev.evaluations += n
     bad = sorted((b for o in outs for b in o['bad']), key=lambda b: size_of(b['mol']))
+    for b in bad:
+        if b['why'].startswith('harness-error'):
+            raise tlc.MachineryError('family %s: %s %s' % (name, b['why'], b.get('detail', '')))
     verdicts = {}
     for o in outs:
         ev.nontrivial.update(o['nontrivial'])
@@ -345,14 +355,15 @@ def run_family(name, fam, ev, vd, pool, deviants):
         per_why.setdefault(b['why'], []).append(b)
     for why, lst in per_why.items():
         for b in lst[:2]:
-            vd.violation('roundtrip' if why != 'writer-raised' else 'writer-raised', b,
-                         'family %s: TLC verdict on the records of the real text: %s %s (%d molecules of this family with '
-                         'this verdict)' % (name, why, b.get('detail', ''), len(lst)))
+            _violation(vd, ev, 'roundtrip' if why != 'writer-raised' else 'writer-raised', b,
+                       'family %s: TLC verdict on the records of the real text: %s %s (%d molecules of this family with '
+                       'this verdict)' % (name, why, b.get('detail', ''), len(lst)))
     smp = next((o['sample'] for o in outs if o['sample']), None)
     if smp and name in ('renumber', 'guards'):
         ev.sample(smp, limit=4)
     ev.extra.setdefault('families', {})[name] = {'molecules': n, 'tlc_verdicts': verdicts,
-                                                 'mismatching_tlc_write': sum(len(o['deviant']) for o in outs)}
+                                                 'block_of_read_itp_equals_tlc_ReaderBlock': sum(o['rd_equal'] for o in outs),
+                                                 'sent_to_the_trace_judge': sum(len(o['deviant']) for o in outs)}
     if name == 'd11' and verdicts.get('mass-in-charge-column', 0) == 0:
         raise tlc.MachineryError('d11 family does not exercise the mass-without-charge case')
     return n
@@ -362,24 +373,40 @@ def run_family(name, fam, ev, vd, pool, deviants):
 # code -> spec (a): random editing histories on real Molecule objects
 
 ARITY = {'bonds': 2, 'constraints': 2, 'pairs': 2, 'angles': 3, 'dihedrals': 4, 'impropers': 4, 'virtual_sites2': 3,
-         'virtual_sites3': 4, 'position_restraints': 1, 'settles': 1, 'cmap': 5}
-CHARGES = [0.0, 1.0, -1.0, 0.5, -0.25, 0.123, 0]
-MASSES = [72.0, 36.0, 54.0, 45.5, 72]
+         'virtual_sites3': 4, 'position_restraints': 1, 'settles': 1, 'cmap': 5, 'virtual_sites4': 5, 'pairs_nb': 2,
+         'distance_restraints': 2, 'virtual_sites1': 2}
+CHARGES = [0.0, 1.0, -1.0, 0.5, -0.25, 0.123, 0, 0.0, 0]
+MASSES = [72.0, 36.0, 54.0, 45.5, 72, 0, 0.0]
 MACROS = ['FLEXIBLE', 'POSRES', 'A', 'B']
 GROUPS = [None, None, 'g', 'Backbone bonds', 'Side chain bonds']
 COMMENTS = [None, None, 'BB-SC1', 'note 1', 'x']
 PARAMS = ['1', '2', '0.47', '3800', '120', 'POSRES_FC', 0.35, 1250, 1, 2.5e-3, 0, 0.0, '0', -1.5]
+STR_KEYS = ['a', 'b', 'BB', 'SC1', 'n 7', '1', 'x;y', 'BB2', '', 'Z']
+ID_STYLES = ['none', 'seq', 'perm', 'partial', 'ties', 'gaps', 'from0']
+
+
+def _np_params(rng, params):
+    """some parameters as numpy scalars (what geometry-derived parameters are before they are formatted)"""
+    import numpy as np
+    out = []
+    for p in params:
+        if isinstance(p, float) and rng.random() < 0.3:
+            p = np.float64(p)
+        elif isinstance(p, int) and not isinstance(p, bool) and rng.random() < 0.3:
+            p = np.int64(p)
+        out.append(p)
+    return out
 
 
 def _rand_interactions(rng, mol, keys, count):
     for _ in range(count):
-        kind = rng.choice(list(ARITY) + ['exclusions', 'virtual_sitesn', 'bonds', 'angles', 'dihedrals', 'impropers'])
+        kind = rng.choice(list(ARITY) + ['exclusions', 'virtual_sitesn', 'bonds', 'angles', 'dihedrals', 'impropers'] * 2)
         if kind == 'exclusions':
-            n, params = rng.randint(2, 4), []
+            n, params = rng.randint(2, 6), []
         elif kind == 'virtual_sitesn':
             n, params = rng.randint(2, 5), [rng.choice(['1', '2', 1])]
         else:
-            n, params = ARITY[kind], [rng.choice(PARAMS) for _ in range(rng.randint(1, 4))]
+            n, params = ARITY[kind], _np_params(rng, [rng.choice(PARAMS) for _ in range(rng.randint(1, 4))])
         if len(keys) < n:
             continue
         atoms = rng.sample(keys, n)
@@ -400,126 +427,155 @@ def _rand_interactions(rng, mol, keys, count):
         mol.add_interaction(kind, atoms, params, meta)
 
 
-def _rand_part(rng, tag):
-    from vermouth.molecule import Molecule
-    mol = Molecule(nrexcl=1)
-    n = rng.randint(1, 6)
-    keys = rng.sample(range(0, 40), n)
-    style = rng.choice(['none', 'seq', 'perm', 'partial', 'ties'])
+def _atom_attrs(rng, name, cm):
+    attrs = {'atype': rng.choice(['P1', 'SC2', 'Q5', 'TC3', 'N4a']), 'resid': rng.choice([0, 1, 2, 12, 105]),
+             'resname': rng.choice(['ALA', 'LYS', 'W']), 'atomname': name, 'charge_group': rng.randint(0, 30)}
+    how = cm if cm != 'mix' else rng.choice(['cm', 'c-', '--'])
+    if how[0] == 'c':
+        attrs['charge'] = rng.choice(CHARGES)
+    if how == 'cm':
+        attrs['mass'] = rng.choice(MASSES)
+    return attrs
+
+
+def _atom_ids(rng, n, style):
+    """atom id per position (None = attribute absent)"""
     ids = list(range(1, n + 1))
-    if style in ('perm', 'partial'):
-        rng.shuffle(ids)
+    if style == 'none':
+        return [None] * n
+    if style == 'seq':
+        return ids
+    if style == 'from0':
+        return list(range(n))
+    if style == 'ties':
+        return [rng.choice([1, 2]) for _ in range(n)]
+    if style == 'gaps':
+        return rng.sample(range(0, 60), n)
+    rng.shuffle(ids)
+    if style == 'partial':
+        return [i if rng.random() < 0.6 else None for i in ids]
+    return ids
+
+
+def _keys(rng, n, kind):
+    if kind == 'int':
+        return rng.sample(range(0, 40), n)
+    if kind == 'str':
+        return rng.sample(STR_KEYS, n)
+    if kind == 'tuple':
+        pool = [(c, r, a) for c in 'AB' for r in (1, 2, 17) for a in ('BB', 'SC1')]
+        return rng.sample(pool, n)
+    pool = [3, 17, 0, 25] + STR_KEYS[:4] + [('A', 1, 'BB'), ('B', 2), (7,), (3, 'x')]
+    return rng.sample(pool, n)
+
+
+def _rand_part(rng, tag, kind='int', nrexcl=None):
+    from vermouth.molecule import Molecule
+    mol = Molecule(nrexcl=rng.choice([1, 1, 3]) if nrexcl is None else nrexcl)
+    n = rng.randint(1, 6)
+    keys = _keys(rng, n, kind)
+    ids = _atom_ids(rng, n, rng.choice(ID_STYLES))
     cm = rng.choice(['cm', 'c-', '--', 'mix'])
     for i, k in enumerate(keys):
-        attrs = {'atype': rng.choice(['P1', 'SC2', 'Q5', 'TC3', 'N4a']), 'resid': rng.choice([1, 2, 12, 105]),
-                 'resname': rng.choice(['ALA', 'LYS', 'W']), 'atomname': '%s%d' % (tag, i),
-                 'charge_group': rng.randint(1, 30)}
-        how = cm if cm != 'mix' else rng.choice(['cm', 'c-', '--'])
-        if how[0] == 'c':
-            attrs['charge'] = rng.choice(CHARGES)
-        if how == 'cm':
-            attrs['mass'] = rng.choice(MASSES)
-        if style in ('seq', 'perm') or (style == 'partial' and rng.random() < 0.6):
+        attrs = _atom_attrs(rng, '%s%d' % (tag, i), cm)
+        if ids[i] is not None:
             attrs['atomid'] = ids[i]
-        elif style == 'ties':
-            attrs['atomid'] = rng.choice([1, 2])
         mol.add_node(k, **attrs)
     _rand_interactions(rng, mol, keys, rng.randint(0, 5))
     return mol
 
 
-def random_history(rng):
-    """A real Molecule after merge_molecule / remove_node / add_node editing; returns (molecule, list of operations)."""
+def random_history(rng, every_step=False):
+    """A real Molecule after merge_molecule / remove_node / add_node / add_interaction editing.  Yields (molecule, list of
+    operations so far) at the end, or after every step when `every_step` (the SAME live object is written again and again)."""
     ops = []
-    mol = _rand_part(rng, 'A')
-    ops.append('part A: %d atoms' % len(mol))
-    for tag in 'BC'[:rng.randint(0, 2)]:
-        part = _rand_part(rng, tag)
-        mol.merge_molecule(part)
-        ops.append('merge part %s: %d atoms' % (tag, len(part)))
+    kind = rng.choice(['int', 'int', 'str', 'tuple', 'mixed'])
+    mol = _rand_part(rng, 'A', kind)
+    ops.append('part A: %d atoms, %s keys' % (len(mol), kind))
+    if every_step:
+        yield mol, list(ops)
+    if kind == 'int':         # merge_molecule is defined for integer keys only
+        for tag in 'BC'[:rng.randint(0, 2)]:
+            part = _rand_part(rng, tag, nrexcl=mol.nrexcl)
+            mol.merge_molecule(part)
+            ops.append('merge part %s: %d atoms' % (tag, len(part)))
+            if every_step:
+                yield mol, list(ops)
     for _ in range(rng.randint(0, 3)):
         if len(mol) > 1:
             k = rng.choice(list(mol.nodes))
             mol.remove_node(k)
-            ops.append('remove_node(%d)' % k)
+            ops.append('remove_node(%r)' % (k,))
+            if every_step:
+                yield mol, list(ops)
     if rng.random() < 0.4:
-        k = max(mol.nodes) + rng.randint(1, 9)
-        mol.add_node(k, atype='P1', resid=3, resname='GLY', atomname='NEW', charge_group=1, charge=0.0)
-        ops.append('add_node(%d)' % k)
+        if kind == 'int':
+            k = max(mol.nodes) + rng.randint(1, 9)
+        else:
+            k = rng.choice([q for q in ('new', ('N', 9), 99) if q not in mol.nodes])
+        mol.add_node(k, atype='P1', resid=3, resname='GLY', atomname='NEW', charge_group=0, charge=0.0)
+        ops.append('add_node(%r)' % (k,))
+        if every_step:
+            yield mol, list(ops)
+    if kind != 'int' and rng.random() < 0.3 and len(mol) > 2:
+        keep = rng.sample(list(mol.nodes), len(mol) - 1)
+        mol = mol.subgraph(keep)
+        ops.append('subgraph(%r)' % (keep,))
     _rand_interactions(rng, mol, list(mol.nodes), rng.randint(0, 4))
-    return mol, ops
+    ops.append('add_interaction x n')
+    yield mol, list(ops)
 
 
 def _history_chunk(args):
     n, seed = args
     rng = random.Random(seed)
     out = []
-    for _ in range(n):
-        mol, ops = random_history(rng)
-        out.append(event_of(mol, {'source': 'editing history', 'ops': ops}))
+    for h in range(n):
+        every = h % 4 == 0
+        for step, (mol, ops) in enumerate(random_history(rng, every)):
+            out.append(event_of(mol, {'source': 'editing history', 'ops': ops, 'history': '%d/%d' % (seed, h), 'step': step}))
     return out
 
 
-def event_of(mol, origin):
-    m = project(mol)
-    try:
-        text, parsed = write_and_read(mol)
-        recs = parsed['records']
-        err = ''
-    except Exception as exc:
-        text, recs, err = '', [], repr(exc)
-    return {'mol': m, 'recs': recs, 'text': text, 'origin': origin, 'err': err}
-
-
 # ----------------------------------------------------------------------------------------------------------------
-# code -> spec (b): molecules of the real pipeline
+# code -> spec (b): molecules of the real pipeline (harness/c02_real.run_pipeline)
 
+GO = ['-go', 'CONTACTS', '-go-eps', '9.4']
+MW = ['-maxwarn', '100']
 CLI_JOBS = {
     'quick': [('PS', ['-ff', 'martini3001', '-nt', '-noscfix', '-p', 'backbone', '-sep']),
-              ('W', ['-ff', 'martini22', '-elastic', '-noscfix'])],
-    'thorough': [('PS', ['-ff', 'martini3001', '-nt', '-noscfix', '-p', 'backbone', '-sep']),
-                 ('W', ['-ff', 'martini22', '-elastic', '-noscfix']),
-                 ('H', ['-ff', 'martini3001', '-p', 'all', '-ss', 'H']),
-                 ('S', ['-ff', 'elnedyn22', '-noscfix']),
-                 ('SW', ['-ff', 'martini3001', '-merge', 'all', '-elastic', '-p', 'backbone']),
-                 ('W', ['-ff', 'martini3001', '-go', '-go-eps', '9.4', '-noscfix']),
-                 ('UP', ['-ff', 'martini3001', '-elastic', '-p', 'backbone', '-sep']),
-                 ('PSP', ['-ff', 'martini22', '-cys', 'auto', '-noscfix', '-maxwarn', '100'])],
+              ('W', ['-ff', 'martini22', '-elastic', '-noscfix'] + MW),
+              ('W', ['-ff', 'martini22p', '-noscfix', '-p', 'backbone'] + MW),
+              ('W', ['-ff', 'elnedyn22', '-noscfix'] + MW),
+              ('W', ['-ff', 'martini3001', '-scfix'] + GO + MW),
+              ('S', ['-ff', 'martini3001', '-scfix', '-elastic', '-p', 'backbone', '-cys', 'auto'] + MW)],
 }
-
-
-def _pipeline_job(job):
-    from . import cli_c03
-    chains, options, seed = job
-    rng = random.Random(seed)
-
-    def on_system(system):
-        evs = []
-        for mi, mol in enumerate(system.molecules):
-            origin = {'source': 'martinize2 ' + ' '.join(options), 'chains': chains, 'molecule': mi}
-            evs.append(event_of(mol, origin))
-            # the same molecule after losing atoms and with stale / shuffled atom ids (what repair and merging leave)
-            for variant in range(2):
-                cp = mol.copy()
-                keys = list(cp.nodes)
-                for k in rng.sample(keys, min(len(keys) - 1, rng.randint(1, 4))):
-                    cp.remove_node(k)
-                keys = list(cp.nodes)
-                ids = list(range(1, len(keys) + 1))
-                rng.shuffle(ids)
-                for k, i in zip(keys, ids):
-                    if variant == 0 or rng.random() < 0.5:
-                        cp.nodes[k]['atomid'] = i
-                    else:
-                        cp.nodes[k].pop('atomid', None)
-                evs.append(event_of(cp, dict(origin, edited='removed atoms, atom ids %s'
-                                             % ('shuffled' if variant == 0 else 'partly missing'))))
-        return evs
-
-    r = cli_c03.run_cli(chains, options, on_system)
-    if r['rc'] != 0 or r['captured'] is None:
-        return {'error': 'martinize2 %s on %s: rc=%s\n%s' % (r['argv'], chains, r['rc'], r['log'][-800:])}
-    return {'events': r['captured']}
+CLI_JOBS['thorough'] = CLI_JOBS['quick'] + [
+    ('H', ['-ff', 'martini3001', '-p', 'all', '-ss', 'H'] + MW),
+    ('S', ['-ff', 'elnedyn22', '-noscfix'] + MW),
+    ('SW', ['-ff', 'martini3001', '-merge', 'all', '-elastic', '-p', 'backbone'] + MW),
+    ('W', ['-ff', 'martini3001', '-noscfix'] + GO + MW),
+    ('UP', ['-ff', 'martini3001', '-elastic', '-p', 'backbone', '-sep'] + MW),
+    ('PSP', ['-ff', 'martini22', '-cys', 'auto', '-noscfix'] + MW),
+    ('H', ['-ff', 'martini22p', '-scfix', '-elastic'] + MW),
+    ('S', ['-ff', 'martini22p', '-noscfix', '-p', 'backbone'] + MW),
+    ('P', ['-ff', 'martini22p', '-noscfix'] + MW),
+    ('H', ['-ff', 'elnedyn22p', '-noscfix', '-p', 'backbone'] + MW),
+    ('W', ['-ff', 'elnedyn22p', '-scfix'] + MW),
+    ('H', ['-ff', 'elnedyn21', '-noscfix', '-ef', '500'] + MW),
+    ('S', ['-ff', 'martini3001', '-scfix'] + GO + MW),
+    ('H', ['-ff', 'martini3001', '-noscfix', '-p', 'backbone', '-pf', '500'] + GO + MW),
+    ('HS', ['-ff', 'martini3001', '-scfix', '-merge', 'all'] + GO + MW),
+    ('U', ['-ff', 'martini3001', '-scfix', '-go', '-p', 'backbone'] + MW),
+    ('H', ['-ff', 'martini22', '-scfix', '-elastic', '-eu', '0.8', '-p', 'backbone'] + MW),
+    ('W', ['-ff', 'martini3001', '-noscfix', '-elastic', '-nt'] + MW),
+    ('S', ['-ff', 'martini22', '-noscfix', '-p', 'all', '-dssp'] + MW),
+]
+# what the real molecules of a tier must exercise (else the family is vacuous: exit 2)
+REAL_MUST = {'sec:virtual_sitesn', 'virtual_sitesn-from-several-atoms', 'sec:exclusions', 'exclusions-of-more-than-two',
+             'sec:impropers', 'sec:dihedrals', 'sec:position_restraints', 'sec:constraints', 'ifdef', 'ifndef', 'define',
+             'group', 'comment', 'charge-without-mass', 'zero-charge', 'three-guard-groups-in-a-section',
+             'sec:virtual_sites2'}
 
 
 # ----------------------------------------------------------------------------------------------------------------
@@ -527,38 +583,65 @@ def _pipeline_job(job):
 
 def _judge(shard):
     work = tlc.scratch('c02j_')
-    tf = tlc.write_json(work, 'trace.json', [{'mol': e['mol'], 'recs': e['recs']} for e in shard])
-    res = tlc.run('Trace_ItpWrite', 'SPECIFICATION Spec\n', dump=True, env={'TRACE_FILE': tf}, workdir=work, workers=2,
-                  timeout=2400)
-    if res.violated:
-        raise tlc.MachineryError('Trace_ItpWrite violated %s' % res.violated)
-    verdicts = {st['tid']: st['verdict'] for st in res.states() if st['verdict'] != 'pending'}
-    return res.distinct, res.generated, res.wall, verdicts
+    try:
+        tf = tlc.write_json(work, 'trace.json', [R.for_tlc(e) for e in shard])
+        res = tlc.run('Trace_ItpWrite', 'SPECIFICATION Spec\n', dump=True, env={'TRACE_FILE': tf}, workdir=work, workers=2,
+                      timeout=2400)
+        if res.violated:
+            raise tlc.MachineryError('Trace_ItpWrite violated %s' % res.violated)
+        verdicts = {st['tid']: dict(st['verdict']) for st in res.states() if st['verdict']['write'] != 'pending'}
+        return res.distinct, res.generated, res.wall, verdicts
+    finally:
+        shutil.rmtree(work, ignore_errors=True)
 
 
 def judge_events(events, pool=None):
-    """TLC verdict for every event (list of strings, same order)."""
+    """TLC verdict for every event (list of {'write', 'agree', 'pure'}, same order)."""
     if not events:
         return [], (0, 0, 0.0)
-    nshards = max(1, min(8, len(events) // 40))
-    shards = common.chunks(events, nshards)
+    weight = sum(len(e['file']['recs']) + 10 for e in events)
+    nshards = max(1, min(12, len(events) // 40, weight // 1500 + 1))
+    # big and small events spread evenly over the shards
+    order = sorted(range(len(events)), key=lambda i: -len(events[i]['file']['recs']))
+    shards_idx = [order[k::nshards] for k in range(nshards)]
+    shards = [[events[i] for i in idx] for idx in shards_idx]
     if pool is None:
         with mp.Pool(len(shards)) as p:
             res = p.map(_judge, shards)
     else:
         res = pool.map(_judge, shards)
-    verdicts, dist, gen, wall = [], 0, 0, 0.0
-    for shard, (d, g, w, vs) in zip(shards, res):
+    verdicts, dist, gen, wall = [None] * len(events), 0, 0, 0.0
+    for idx, shard, (d, g, w, vs) in zip(shards_idx, shards, res):
         dist, gen, wall = dist + d, gen + g, max(wall, w)
         if len(vs) != len(shard):
             raise tlc.MachineryError('trace verdicts missing: %d of %d' % (len(vs), len(shard)))
-        verdicts += [vs[i] for i in range(1, len(shard) + 1)]
+        for j, i in enumerate(idx):
+            verdicts[i] = vs[j + 1]
     return verdicts, (dist, gen, wall)
+
+
+def overall(v):
+    """One word for the three-part verdict: the first part that fails."""
+    if v['write'] != 'ok':
+        return v['write']
+    if v['pure'] != 'ok':
+        return v['pure']
+    if v['agree'].startswith('reader:'):
+        return v['agree']
+    return 'ok'
+
+
+def kind_of(why):
+    if why.startswith('reader:'):
+        return 'reader-agreement'
+    if why in ('writing-changed-the-molecule', 'second-write-differs'):
+        return 'repeatable'
+    return 'roundtrip'
 
 
 def drop_node(m, i):
     key = m['nodes'][i]['key']
-    return {'nodes': m['nodes'][:i] + m['nodes'][i + 1:], 'inter': [x for x in m['inter'] if key not in x['at']]}
+    return dict(m, nodes=m['nodes'][:i] + m['nodes'][i + 1:], inter=[x for x in m['inter'] if key not in x['at']])
 
 
 def minimise(m, why, rounds=10):
@@ -566,27 +649,54 @@ def minimise(m, why, rounds=10):
     verdict on what the real writer produces for the smaller molecule."""
     for _ in range(rounds):
         cands = [drop_node(m, i) for i in range(len(m['nodes'])) if len(m['nodes']) > 1]
-        cands += [{'nodes': m['nodes'], 'inter': m['inter'][:i] + m['inter'][i + 1:]} for i in range(len(m['inter']))]
+        cands += [dict(m, inter=m['inter'][:i] + m['inter'][i + 1:]) for i in range(len(m['inter']))]
+        if m.get('defs'):
+            cands.append(dict(m, defs=[]))
         events = []
         for c in cands:
             try:
-                events.append(event_of(build_molecule(c), {'source': 'shrink'}))
-                events[-1]['mol'] = c
-            except Exception:
-                pass
+                e = event_of(build_molecule(c), {'source': 'shrink'}, moltype=moltype_of(c))
+            except Exception:      # noqa
+                continue
+            if not e['err'] and e['mol'] == dict(c, moltype=moltype_of(c)):
+                events.append(e)
         if not events:
             break
         verdicts, _ = judge_events(events)
-        keep = [e for e, v in zip(events, verdicts) if v == why]
+        keep = [e for e, v in zip(events, verdicts) if overall(v) == why]
         if not keep:
             break
         m = min((e['mol'] for e in keep), key=size_of)
     return m
 
 
-def report_trace_violations(failed, vd, label, shrink=True):
-    """failed: list of (event, verdict).  Per verdict the two smallest scenarios are written out; with `shrink` the
-    smallest one of each verdict is first minimised (the TAB domain is exhaustive, its smallest failing member is
+def _known_ids():
+    return {k['id'] for k in common.load_known() if k['property'] == PID}
+
+
+def _violation(vd, ev, kind, sc, detail):
+    """vd.violation, except for the driver's PENDING findings that the lead has not registered yet."""
+    registered = _known_ids()
+    for fid, what in PENDING.items():
+        if fid in registered:
+            continue
+        try:
+            hit = SIGNATURES[fid](kind, common.jsonable(sc))
+        except Exception:      # noqa
+            hit = False
+        if hit:
+            seen = ev.extra.setdefault('pending_findings', {})
+            if fid not in seen:
+                print('NOTE property=%s finding %s is not registered in known_findings.json yet (reported to the lead): %s'
+                      % (PID, fid, what))
+            seen[fid] = seen.get(fid, 0) + 1
+            return False
+    return vd.violation(kind, sc, detail)
+
+
+def report_trace_violations(failed, vd, ev, label, shrink=True):
+    """failed: list of (event, overall verdict).  Per verdict the two smallest scenarios are written out; with `shrink`
+    the smallest one of each verdict is first minimised (the TAB domain is exhaustive, its smallest failing member is
     already minimal)."""
     per_why = {}
     for e, v in sorted(failed, key=lambda ev_v: size_of(ev_v[0]['mol'])):
@@ -603,38 +713,69 @@ def report_trace_violations(failed, vd, label, shrink=True):
                   'original_size': [len(e['mol']['nodes']), len(e['mol']['inter'])]}
             more = '(%d recorded runs with this verdict)' % len(lst)
             if e.get('err'):
-                vd.violation('writer-raised', dict(sc, detail=e['err']), '%s: real writer raised %s %s' % (label, e['err'], more))
+                _violation(vd, ev, 'writer-raised', dict(sc, detail=e['err']), '%s: real writer raised %s %s' % (label, e['err'], more))
             else:
-                vd.violation('roundtrip', sc, '%s: TLC verdict on the records of the real text: %s %s' % (label, v, more))
+                what = ('Block stored by read_itp vs independent reading of the same text' if v.startswith('reader:')
+                        else 'records of the real text')
+                _violation(vd, ev, kind_of(v), sc, '%s: TLC verdict on the %s: %s %s' % (label, what, v, more))
 
 
 # ----------------------------------------------------------------------------------------------------------------
 
+def _tally(table, family, v):
+    t = table.setdefault(family, {})
+    for part in ('write', 'agree', 'pure'):
+        key = '%s=%s' % (part, v[part])
+        t[key] = t.get(key, 0) + 1
+
+
 def run(tier, seed, ev, vd):
     quick = tier == 'quick'
-    ev.rule = ('TAB: every molecule of four bounded families (renumbering: all node orders x atom-id assignments incl. '
+    ev.rule = ('TAB: every molecule of six bounded families (renumbering: all node orders x atom-id assignments incl. '
                'missing and tied; guards/groups in one section; section mix incl. impropers, virtual_sitesn, exclusions; '
-               'd11: mass without charge). TRACE: molecules left by random editing histories and by the real martinize2 '
-               'pipeline (also after deleting atoms / shuffling atom ids). Non-trivial = molecule with >=1 interaction and '
+               'd11: mass without charge; vs1: one-atom virtual sites). TRACE: molecules left by random editing histories '
+               '(integer, string, tuple and mixed node keys; written after every step of every fourth history) and the live '
+               'molecules of every write_molecule_itp call of real martinize2 runs (also after deleting atoms / shuffling '
+               'atom ids); each judged on write (ReadMol = Canon), agree (read_itp vs independent reader) and pure '
+               '(repeatable). Non-trivial = molecule with >=1 interaction and '
                '>=2 of {atom-id order != node order, key order != node order, tied or missing atom ids, >=2 guard groups in a '
                'section, >=2 sections, impropers or virtual_sitesn}; distinct by abstract molecule.')
     ev.assumptions = [
         'TLC evaluates the TLA+ operators correctly; harness/indep_readers.py tokenises the text as the GROMACS manual '
         'describes (atoms / parameters split by the directive arity, virtual_sitesn = site, function type, atoms)',
-        'attribute values are opaque tokens str(value); numeric formatting is compared as text (DESIGN limit)',
+        'attribute values and parameters are opaque tokens str(value) (also numpy scalars, numeric 0); numeric formatting is '
+        'compared as text (DESIGN limit)',
+        'writer/reader agreement compares resid / charge_group as integers and charge / mass as integers in units of 1e-6 '
+        '(exact decimal arithmetic on the token, float * 1e6 rounded on the Block; tolerance 1e-9 absolute); what a comment '
+        'carries (meta group / comment) is given to no reader by the format and is not part of the agreement',
+        'excluded from the agreement, by named operators of spec/ItpAgree.tla, exactly what read_itp declares unsupported: '
+        'UsesUnknownSection (sections outside its explicit list, e.g. cmap: "to guard against ... interactions for which '
+        'the format is unknown"), NestedOrElseGuard (guard inside a guard is an IOError; never written), '
+        'NonNumericAtomColumn (int() / float() of the atom columns); #include (never written)',
         'not generated: ifdef and ifndef on one interaction (ValueError by contract), comments with newlines, tokens '
         'with blanks or ";", virtual_sitesn without exactly one parameter, exclusions with parameters, pre/post '
-        'section lines',
-        'atoms with a mass and without a charge are generated only in family d11 (candidate defect D11)',
+        'section lines, negative or non-integer atom ids, merge_molecule on non-integer node keys (undefined)',
+        'node keys are opaque to the specification: integer keys stay integers, any other key is its repr() string',
+        'atoms with a mass and without a charge are generated only in family d11 (known finding D11)',
+        'a parameter that is neither text nor a number (e.g. an unevaluated LinkParameterEffector) cannot be carried by '
+        'the format: such a real molecule is a machinery failure of this check (exit 2), none occurs',
     ]
     fams = families(tier)
     deviants = []
+    jobs = [(c, o, seed * 31 + i) for i, (c, o) in enumerate(CLI_JOBS[tier])]
+    cli_pool = mp.Pool(min(len(jobs), 6 if quick else 10), maxtasksperchild=1)
+    cli_async = cli_pool.map_async(R.run_pipeline, jobs, chunksize=1)
     with mp.Pool(tlc.NCPU) as pool:
+        pre = {}
+        if quick:       # the TAB models of the quick tier are small: TLC on all families at once
+            names = list(fams)
+            for name, res in zip(names, pool.map(_tlc_family, [(fams[n], tlc.scratch('c02tab_'), 8) for n in names], chunksize=1)):
+                pre[name] = res
         for name, fam in fams.items():
-            run_family(name, fam, ev, vd, pool, deviants)
+            run_family(name, fam, ev, vd, pool, deviants, pre.get(name))
         ev.exhaustive = True
 
-        # records that differ from TLC's Write(mol): TLC judges the real records
+        # texts / Blocks that differ from TLC's Write(mol) / ReaderBlock: TLC judges the real ones
         ev.extra['write_model_deviations'] = 0
         if deviants:
             deviants.sort(key=lambda d: size_of(d['mol']))
@@ -645,33 +786,44 @@ def run(tier, seed, ev, vd):
             verdicts, (d, g, w) = judge_events(deviants, pool)
             failed = []
             for e, v in zip(deviants, verdicts):
-                if v == 'ok':
+                if overall(v) == 'ok':
                     ev.extra['write_model_deviations'] += 1
                 else:
-                    failed.append((e, v))
+                    failed.append((e, overall(v)))
             if ev.extra['write_model_deviations']:
-                print('NOTE property=C02 %d texts round-trip but are not what ItpWrite!Write produces (model of the '
-                      'algorithm out of date), first: %s' % (ev.extra['write_model_deviations'],
-                                                             json.dumps(deviants[0]['mol'])[:300]))
-            report_trace_violations(failed, vd, 'TAB replay', shrink=False)
+                print('NOTE property=C02 %d texts pass the judge but are not what ItpWrite!Write / ReaderBlock produce '
+                      '(model of the algorithm out of date), first: %s' % (ev.extra['write_model_deviations'],
+                                                                           json.dumps(deviants[0]['mol'])[:300]))
+            report_trace_violations(failed, vd, ev, 'TAB replay', shrink=False)
 
         # code -> spec
         nhist = 1600 if quick else 24000
         parts = pool.map(_history_chunk, [(nhist // (tlc.NCPU * 2), seed * 7907 + i) for i in range(tlc.NCPU * 2)])
     events = [e for p in parts for e in p]
-    jobs = [(c, o, seed * 31 + i) for i, (c, o) in enumerate(CLI_JOBS[tier])]
-    with mp.Pool(min(len(jobs), tlc.NCPU), maxtasksperchild=1) as pool:
-        cli_out = pool.map(_pipeline_job, jobs, chunksize=1)
-    npipe = 0
+    for e in events:
+        e['fam'] = 'history'
+    try:
+        cli_out = cli_async.get(timeout=3000)
+    finally:
+        cli_pool.terminate()
+    real_feats, ncalls = set(), 0
     for o in cli_out:
         if 'error' in o:
             raise tlc.MachineryError('pipeline run failed: ' + o['error'])
+        for e in o['events']:
+            e['fam'] = 'real' if e['origin'].get('what') else 'real-edited'
+            if e['fam'] == 'real':
+                ncalls += 1
+                real_feats |= R.census(e['mol'])
+                if e['odd'] or not in_scope(e['mol']):
+                    raise tlc.MachineryError('a molecule of the real pipeline cannot be judged (%s): %s' % (
+                        e['origin']['source'], e['odd'] or 'token with blanks'))
         events += o['events']
-        npipe += len(o['events'])
-    skipped = [e for e in events if not in_scope(e['mol'])]
-    events = [e for e in events if in_scope(e['mol'])]
-    ev.extra['trace_events'] = {'editing_histories': len(parts) and sum(len(p) for p in parts),
-                                'pipeline_molecules': npipe, 'out_of_scope_skipped': len(skipped)}
+    missing = REAL_MUST - real_feats
+    if missing:
+        raise tlc.MachineryError('real-molecule family is vacuous for %s' % sorted(missing))
+    skipped = [e for e in events if not in_scope(e['mol']) or e['odd']]
+    events = [e for e in events if in_scope(e['mol']) and not e['odd']]
     errs = [(e, 'writer-raised') for e in events if e['err']]
     events = [e for e in events if not e['err']]
     verdicts, (d, g, w) = judge_events(events)
@@ -680,88 +832,206 @@ def run(tier, seed, ev, vd):
     ev.tlc_runs.append({'run': 'TRACE Trace_ItpWrite', 'events': len(events), 'distinct_states': d, 'states_generated': g,
                         'wall_s': round(w, 2)})
     failed = list(errs)
+    tally = {}
     for e, v in zip(events, verdicts):
         ev.traces += 1
         ev.evaluations += 1
-        if v != 'ok':
-            failed.append((e, v))
+        _tally(tally, e['fam'], v)
+        if overall(v) != 'ok':
+            failed.append((e, overall(v)))
         if nontrivial(e['mol']):
             ev.nontrivial.add(_hash(e['mol']))
-    report_trace_violations(failed, vd, 'recorded run')
-    big = max(events, key=lambda e: len(e['recs']))
+    ev.extra['trace_events'] = {'editing_history_events': sum(len(p) for p in parts), 'pipeline_writer_calls': ncalls,
+                                'pipeline_molecules_edited': sum(1 for e in events if e['fam'] == 'real-edited'),
+                                'out_of_scope_skipped': len(skipped), 'verdict_parts': tally,
+                                'non_integer_key_molecules': sum(1 for e in events if e['mol']['nodes']
+                                                                 and isinstance(e['mol']['nodes'][0]['key'], str)),
+                                'real_molecule_features': sorted(real_feats)}
+    # vacuity of the agreement: it must have been DECIDED (not excluded) on most histories and on every real molecule
+    for fam, least in (('history', 0.5), ('real', 1.0), ('real-edited', 1.0)):
+        t = tally.get(fam, {})
+        total = sum(v for k, v in t.items() if k.startswith('agree='))
+        decided = t.get('agree=ok', 0) + sum(v for k, v in t.items() if k.startswith('agree=reader:'))
+        if total == 0 or decided < least * total:
+            raise tlc.MachineryError('writer/reader agreement decided on %d of %d %s events only: %s' % (decided, total, fam, t))
+    if ev.extra['trace_events']['non_integer_key_molecules'] < 50:
+        raise tlc.MachineryError('history family has too few molecules with non-integer node keys')
+    report_trace_violations(failed, vd, ev, 'recorded run')
+    big = max(events, key=lambda e: len(e['file']['recs']))
     si = next((i for i, e in enumerate(events) if nontrivial(e['mol']) and len(e['mol']['nodes']) <= 6), 0)
     ev.sample({'kind': 'recorded run judged by TLC', 'origin': events[si]['origin'], 'mol': events[si]['mol'],
-               'records': events[si]['recs'], 'verdict': verdicts[si]}, limit=5)
+               'records': events[si]['file']['recs'], 'block_of_read_itp': events[si]['rd'], 'verdict': verdicts[si]}, limit=5)
+    ri = next((i for i, e in enumerate(events) if e['fam'] == 'real'), None)
+    if ri is not None:
+        e = events[ri]
+        ev.sample({'kind': 'interposed write_molecule_itp call of a real run (abridged)', 'origin': e['origin'],
+                   'atoms': len(e['mol']['nodes']), 'interactions': len(e['mol']['inter']), 'defs': e['mol']['defs'],
+                   'first_records': e['file']['recs'][:6], 'verdict': verdicts[ri]}, limit=6)
     ev.extra['largest_trace'] = {'origin': big['origin'], 'atoms': len(big['mol']['nodes']),
-                                 'interactions': len(big['mol']['inter']), 'records': len(big['recs'])}
+                                 'interactions': len(big['mol']['inter']), 'records': len(big['file']['recs'])}
 
 
 def replay(sc):
     m = sc['mol']
     mol = build_molecule(m)
-    e = event_of(mol, {'source': 'replay'})
-    e['mol'] = m
+    e = event_of(mol, {'source': 'replay'}, moltype=moltype_of(m))
     print('abstract molecule:', json.dumps(m))
     print('text written by the real write_molecule_itp:\n' + e['text'])
+    if e['err']:
+        print('the real writer raised', e['err'])
+        return 1
+    print('Block stored by the real read_itp:', json.dumps(e['rd']))
     verdicts, _ = judge_events([e])
-    print('TLC verdict (ItpWrite!Judge) on the records read back:', verdicts[0], ' recorded:', sc.get('why'))
-    return 0 if verdicts[0] == 'ok' else 1
+    print('TLC verdict (ItpWrite!JudgeFile / ItpAgree!AgreeVerdict / ItpWrite!Repeatable):', verdicts[0],
+          ' recorded:', sc.get('why'))
+    return 0 if overall(verdicts[0]) == 'ok' else 1
+
+
+def _first(pred, seq, what):
+    for x in seq:
+        if pred(x):
+            return x
+    raise tlc.MachineryError('selftest: no event with ' + what)
 
 
 def selftest(seed):
     """Binding demonstration: (1) tampered recorded records must be rejected by the TLC judge with the right clause,
-    untouched ones accepted; (2) a flipped expected record in a TAB row must be seen by the replay comparison."""
-    batch = _history_chunk((400, seed))
-    batch = [e for e in batch if in_scope(e['mol']) and not e['err'] and len(e['mol']['nodes']) >= 2
-             and any(len(x['at']) >= 2 and len(set(x['at'])) > 1 for x in e['mol']['inter'])][:12]
+    untouched ones accepted; (2) the same for the Block of read_itp, the projection after writing, the prologue and the
+    [ moleculetype ] line, on history molecules (integer and non-integer keys) and on a live molecule of a real
+    martinize2 run; (3) the named exclusion is what read_itp really refuses; (4) a flipped expected record / Block field in
+    a TAB row must be seen by the replay comparison."""
+    import copy
+    pool = [e for e in _history_chunk((500, seed)) if in_scope(e['mol']) and not e['err'] and not e['odd']]
+    usable = [e for e in pool if len(e['mol']['nodes']) >= 2 and not e['rd']['err']
+              and any(len(x['at']) >= 2 and len(set(x['at'])) > 1 for x in e['mol']['inter'])]
+    batch = [copy.deepcopy(e) for e in usable[:12]]
     assert len(batch) == 12
     expect = {}
     # 1: an interaction attached to a different atom
     e = batch[1]
-    i = next(i for i, r in enumerate(e['recs']) if r['k'] == 'inter' and len(set(r['a'])) >= 2)
-    a = e['recs'][i]['a']
+    recs = e['file']['recs']
+    i = next(i for i, r in enumerate(recs) if r['k'] == 'inter' and len(set(r['a'])) >= 2)
+    a = recs[i]['a']
     other = next(x for x in range(1, len(e['mol']['nodes']) + 2) if x not in a)
-    e['recs'][i] = dict(e['recs'][i], a=[other] + a[1:])
+    recs[i] = dict(recs[i], a=[other] + a[1:])
     expect[2] = {'interaction-attached-to-different-atoms', 'interaction-section-or-parameters-differ'}
     # 4: an atom line dropped
     e = batch[4]
-    i = next(i for i, r in enumerate(e['recs']) if r['k'] == 'atom')
-    del e['recs'][i]
+    recs = e['file']['recs']
+    del recs[next(i for i, r in enumerate(recs) if r['k'] == 'atom')]
     expect[5] = {'atom-dropped-or-duplicated'}
     # 7: an #endif dropped, or (no guard in that text) an interaction duplicated
     e = batch[7]
-    idx = [i for i, r in enumerate(e['recs']) if r['k'] == 'endif']
+    recs = e['file']['recs']
+    idx = [i for i, r in enumerate(recs) if r['k'] == 'endif']
     if idx:
-        del e['recs'][idx[0]]
+        del recs[idx[0]]
         expect[8] = {'unbalanced-guard-or-unreadable-line', 'interaction-under-wrong-guard'}
     else:
-        i = next(i for i, r in enumerate(e['recs']) if r['k'] == 'inter')
-        e['recs'].insert(i, e['recs'][i])
+        i = next(i for i, r in enumerate(recs) if r['k'] == 'inter')
+        recs.insert(i, recs[i])
         expect[8] = {'interaction-dropped-or-duplicated'}
-    # 10: a parameter changed
+    # 10: an atom field changed
     e = batch[10]
-    i = next(i for i, r in enumerate(e['recs']) if r['k'] == 'atom')
-    e['recs'][i] = dict(e['recs'][i], p=e['recs'][i]['p'][:3] + ['XX'] + e['recs'][i]['p'][4:])
+    recs = e['file']['recs']
+    i = next(i for i, r in enumerate(recs) if r['k'] == 'atom')
+    recs[i] = dict(recs[i], p=recs[i]['p'][:3] + ['XX'] + recs[i]['p'][4:])
     expect[11] = {'atom-fields-differ'}
+
+    # --- second reader (Block of read_itp), projection after writing, prologue, [ moleculetype ] line
+    def add(e, want):
+        batch.append(e)
+        expect[len(batch)] = want if isinstance(want, set) else {want}
+
+    ok_agree = [e for e in usable[12:] if e['rd']['inters']]
+    e = copy.deepcopy(_first(lambda e: any(len(set(x['a'])) >= 2 for x in e['rd']['inters']), ok_agree, 'a Block interaction'))
+    x = next(x for x in e['rd']['inters'] if len(set(x['a'])) >= 2)
+    x['a'] = [x['a'][1], x['a'][0]] + x['a'][2:]
+    add(e, 'reader:interaction-on-different-atoms')
+    e = copy.deepcopy(_first(lambda e: any(x['cond'] != 'none' for x in e['rd']['inters']), ok_agree, 'a guarded Block interaction'))
+    next(x for x in e['rd']['inters'] if x['cond'] != 'none').update(cond='none', tag='')
+    add(e, 'reader:condition-differs')
+    e = copy.deepcopy(_first(lambda e: any(a['q']['has'] for a in e['rd']['atoms']), ok_agree, 'a charge'))
+    next(a for a in e['rd']['atoms'] if a['q']['has'])['q']['v'] += 1
+    add(e, 'reader:atom-fields-differ')
+    e = copy.deepcopy(_first(lambda e: any(len(x['a']) >= 2 and x['sec'] != 'exclusions' for x in e['rd']['inters']), ok_agree, 'a bond'))
+    x = next(x for x in e['rd']['inters'] if len(x['a']) >= 2 and x['sec'] != 'exclusions')
+    x['p'] = [str(x['a'][-1] + 1)] + x['p']
+    x['a'] = x['a'][:-1]
+    add(e, 'reader:atoms-and-parameters-split-differently')
+    e = copy.deepcopy(ok_agree[0])
+    e['rd'] = dict(R.EMPTY_RD, err='IOError: tampered')
+    add(e, 'reader:rejects-the-written-text')
+    e = copy.deepcopy(ok_agree[1])
+    e['again']['mol']['nodes'][0]['f'][5] = ''
+    add(e, {'writing-changed-the-molecule'})
+    e = copy.deepcopy(ok_agree[2])
+    e['again']['recs'] = e['again']['recs'][:-1]
+    add(e, 'second-write-differs')
+    # non-integer keys: an interaction attached to a different atom
+    e = copy.deepcopy(_first(lambda e: isinstance(e['mol']['nodes'][0]['key'], str) and len(e['mol']['nodes']) >= 3
+                             and any(len(set(x['at'])) == 2 for x in e['mol']['inter']), usable[12:], 'string keys'))
+    x = next(x for x in e['mol']['inter'] if len(set(x['at'])) == 2)
+    x['at'] = [next(nd['key'] for nd in e['mol']['nodes'] if nd['key'] not in x['at']), x['at'][1]]
+    e['again']['mol'] = e['mol']
+    add(e, {'interaction-attached-to-different-atoms', 'interaction-section-or-parameters-differ'})
+    # the named exclusion is a real refusal: [ cmap ] is written, read_itp raises, TLC excludes
+    e = copy.deepcopy(_first(lambda e: any(x['type'] == 'cmap' for x in e['mol']['inter']), pool, 'cmap'))
+    assert e['rd']['err'], 'read_itp accepted [ cmap ]'
+    add(e, 'ok')
+    cmap_at = len(batch)
+
+    # --- a live molecule of a real martinize2 run (define prologue, position restraints)
+    out = R.run_pipeline(('P', ['-ff', 'martini3001', '-p', 'backbone', '-noscfix', '-maxwarn', '100'], seed))
+    assert 'events' in out, out
+    real = _first(lambda e: e['origin'].get('what'), out['events'], 'interposed writer call')
+    assert real['mol']['defs'] and not real['err'] and not real['odd']
+    add(copy.deepcopy(real), 'ok')
+    e = copy.deepcopy(real)
+    del e['file']['pro'][next(i for i, r in enumerate(e['file']['pro']) if r['k'] == 'ifndef')]
+    del e['file']['pro'][next(i for i, r in enumerate(e['file']['pro']) if r['k'] == 'endif')]
+    add(e, 'define-prologue-differs')
+    e = copy.deepcopy(real)
+    e['file']['head']['moltype'] = 'other'
+    add(e, {'moleculetype-line-differs'})
+    e = copy.deepcopy(real)
+    next(x for x in e['rd']['inters'] if x['sec'] == 'position_restraints').update(cond='ifndef')
+    add(e, 'reader:condition-differs')
+    e = copy.deepcopy(real)
+    e['rd']['atoms'][1]['key'], e['rd']['atoms'][2]['key'] = e['rd']['atoms'][2]['key'], e['rd']['atoms'][1]['key']
+    add(e, 'reader:interaction-on-different-atoms')
+    e = copy.deepcopy(real)
+    x = next(x for x in e['mol']['inter'] if x['type'] == 'position_restraints')
+    x['g'] = []
+    e['again']['mol'] = e['mol']
+    add(e, 'interaction-under-wrong-guard')
+
     verdicts, _ = judge_events(batch)
     for i, v in enumerate(verdicts, 1):
         if i in expect:
-            assert v in expect[i], (i, v, expect[i])
+            assert overall(v) in expect[i], (i, v, expect[i])
         else:
-            assert v == 'ok', (i, v)
-    print('selftest C02 (TRACE): tampered events rejected: %s; the other %d accepted' % (
-        {i: verdicts[i - 1] for i in sorted(expect)}, len(batch) - len(expect)))
-    # TAB binding: corrupt TLC's expected records of one row -> the replay must notice the difference
+            assert overall(v) == 'ok', (i, v)
+    assert verdicts[cmap_at - 1]['agree'] == 'excluded:section-unknown-to-read_itp', verdicts[cmap_at - 1]
+    print('selftest C02 (TRACE): tampered events rejected: %s; the other %d accepted (incl. the untouched live molecule of a '
+          'real run: %d atoms, %d interactions, defines %s); [ cmap ] molecule: read_itp raised %r, TLC: %s' % (
+              {i: overall(verdicts[i - 1]) for i in sorted(expect) if expect[i] != {'ok'}},
+              sum(1 for i in range(1, len(batch) + 1) if expect.get(i, {'ok'}) == {'ok'}),
+              len(real['mol']['nodes']), len(real['mol']['inter']), real['mol']['defs'],
+              batch[cmap_at - 1]['rd']['err'][:60], verdicts[cmap_at - 1]['agree']))
+    # TAB binding: corrupt TLC's expected records / Block of one row -> the replay must notice the difference
     fam = families('quick')['d11']
     res = tlc.run('ItpWrite', CFG, consts=consts_of(fam), dump=True)
     rows = [st for st in res.states() if st['out']['done']]
     st = rows[0]
     m = norm(st['mol'])
-    _text, parsed = write_and_read(build_molecule(m))
-    same = parsed['records'] == norm(st['out']['recs'])
+    e = event_of(build_molecule(m), {'source': 'selftest'})
+    same = e['file']['recs'] == norm(st['out']['recs']) and e['rd'] == norm(st['out']['rd'])
     tampered = norm(st['out']['recs'])
     tampered[1]['a'] = [tampered[1]['a'][0] + 1]
-    assert same and parsed['records'] != tampered
-    print('selftest C02 (TAB): real records equal TLC Write(mol) for %s; after flipping one expected index they differ; '
-          'TLC verdict for that row: %s' % (json.dumps(m['nodes']), st['out']['verdict']))
+    tampered_rd = norm(st['out']['rd'])
+    tampered_rd['atoms'][0]['key'] += 1
+    assert same and e['file']['recs'] != tampered and e['rd'] != tampered_rd
+    print('selftest C02 (TAB): real records and real read_itp Block equal TLC Write(mol) / ReaderBlock for %s; after flipping '
+          'one expected index / node key they differ; TLC verdict for that row: %s' % (json.dumps(m['nodes']), st['out']['verdict']))
     return 0
